@@ -1,9 +1,29 @@
 import Driver.Common
 import Model.ClientAuth
+import Model.ClientAssertion
+import Driver.C04
 namespace Driver.C07
 open Lean Driver Model Model.ClientAuth
 
+def handleAssertions (j : Json) : Except String Json := do
+  let clients := (← getArr j "jwt_clients").toList.filterMap fun c =>
+    (getStrOpt c "id").map fun i => ({ id := i, jwtMethod := getBoolD c "jwt" false } : Model.ClientAssertion.Client)
+  let reqs ← (← getArr j "reqs").toList.mapM fun r => do
+    let claims ← match r.getObjVal? "claims" with
+      | .ok (.arr a) => do pure (some (← Driver.C04.parsePairs Driver.C04.parseVal a))
+      | _ => pure none
+    pure ({ typeOk := getBoolD r "type_ok" false, claims := claims, sigOk := getBoolD r "sig_ok" false, now := ← getInt r "now" } : Model.ClientAssertion.Req)
+  let url ← getStr j "token_url"
+  let (s, outs) := reqs.foldl (fun (acc : Model.ClientAssertion.St × List Json) r =>
+    let (s', v) := Model.ClientAssertion.step url acc.1 r
+    (s', acc.2 ++ [match v with
+      | .authenticated i => Json.str ("authenticated:" ++ i)
+      | .invalidClient => Json.str "invalid_client"
+      | .notAttempted => Json.str "invalid_client"])) (⟨[], clients⟩, [])
+  pure (Json.mkObj [("steps", Json.arr outs.toArray), ("used", Json.arr (s.used.map Json.str).toArray)])
+
 def handle : Handler := fun j => do
+  if (j.getObjVal? "reqs").toOption.isSome then handleAssertions j else
   let clients ← (← getArr j "clients").toList.mapM fun c => do
     pure ({ id := ← getHex c "id", secret := ← getHex c "secret", method := ← getStr c "method" } : Client)
   let rj ← j.getObjVal? "req"
